@@ -3,6 +3,7 @@ package c01
 import (
 	"bytes"
 	"fmt"
+	"github.com/uhppoted/uhppote-core/uhppote"
 	"time"
 
 	"pgregory.net/rapid"
@@ -180,6 +181,9 @@ type sameCase struct {
 	// Silent: the controller does not answer at all - every call runs into its timeout, one after the other where they share a
 	// bind port; each of them has still put its own request on the wire
 	Silent bool `json:"silent_controller,omitempty"`
+	// TwoClients (with a fixed bind port): the calls alternate between two clients of the process that share the port number,
+	// one bound to 127.0.0.1 and one to 0.0.0.0 - their sockets collide all the same, so they take turns like one client's calls
+	TwoClients bool `json:"two_clients,omitempty"`
 }
 
 func runSame(c sameCase, scale int) (*rp.Fail, bool) {
@@ -231,9 +235,16 @@ func runSame(c sameCase, scale int) (*rp.Fail, bool) {
 		cfg.Devices = []hook.DeviceCfg{{Name: "w", Serial: c.Case.Call.Serial, HasAddr: true, IP: ip, Port: u.Addr.Port(), Protocol: "tcp"}}
 	}
 	client := hook.Real(cfg)
+	clients := []uhppote.IUHPPOTE{client}
+	if c.TwoClients && c.Fixed {
+		any := cfg
+		any.BindIP = [4]byte{0, 0, 0, 0}
+		clients = append(clients, hook.Real(any))
+	}
 	start := make(chan struct{})
 	done := make(chan any, c.N)
 	for i := 0; i < c.N; i++ {
+		client := clients[i%len(clients)]
 		go func() {
 			<-start
 			if discovery {
@@ -298,6 +309,7 @@ func genSame(t *rapid.T) sameCase {
 	op := rapid.SampledFrom([]string{"GetDevices", "GetDevices", "GetTime", "GetStatus", "OpenDoor", "GetCards", "GetDevice"}).Draw(t, "op")
 	cs := gen.Call(t, op)
 	c := sameCase{Case: cs, Path: rapid.SampledFrom([]string{"broadcast", "udp", "tcp"}).Draw(t, "path"), N: rapid.IntRange(2, 4).Draw(t, "n"), Fixed: rapid.Bool().Draw(t, "fixed"), Debug: gen.Debug(t, "debug")}
+	c.TwoClients = c.Fixed && rapid.Bool().Draw(t, "two.clients")
 	if rapid.IntRange(0, 3).Draw(t, "silent") == 0 {
 		c.Silent, c.N = true, rapid.IntRange(3, 7).Draw(t, "silent.n")
 		if rapid.Bool().Draw(t, "silent.directed") && op != "GetDevices" {
